@@ -85,8 +85,10 @@ if __name__ == "__main__":
         src = ("yieldcode Y0, Y1;\n" if ys else "") + "out int kind = 0;\nhook h0;\nhook h1;\nparser {\n  greedy case {\n" + \
             f'    prio 2 "{kw}" -> {{ {body1} }}\n    prio 1 /[a-z][a-z0-9]*/ -> {{ {body2} }}\n    prio 3 "zz9" -> {{ }}\n  }}\n  " ";\n}}\n'
         progs.append({"name": f"kw-{i}", "src": src, "args": ["-feof-support"] + (["-fyield-support"] if ys else []), "feats": {}, "also_O3": True})
-    progs.append({"name": "two-else", "args": ["-feof-support"], "feats": {}, "also_O3": False,
+    progs.append({"name": "two-else", "args": ["-feof-support"], "feats": {}, "also_O3": False, "must_reject": "two else clauses",
                   "src": 'out int kind = 0;\nparser {\n  case {\n    "a" -> { kind = 1; }\n    else -> { kind = 2; "x"; }\n    else -> { kind = 3; "y"; }\n  }\n  ";";\n}\n'})
+    progs.append({"name": "two-else-greedy", "args": ["-feof-support"], "feats": {}, "also_O3": False, "must_reject": "two else clauses",
+                  "src": 'out int kind = 0;\nparser {\n  greedy case {\n    "a" -> { kind = 1; }\n    else -> { kind = 2; "x"; }\n    else -> { kind = 3; "y"; }\n  }\n  ";";\n}\n'})
     progs.append({"name": "known-greedy-prefix-hook", "args": ["-feof-support"], "feats": {}, "also_O3": False,
                   "known_key": "greedy-prefix-clause-hook-runs-early",
                   "known_what": "in a greedy case a clause body of nothing but hook calls runs as soon as its pattern is complete, although a longer pattern of another clause goes on to match (both clauses' hooks run on 'abc')",
